@@ -131,6 +131,11 @@ def run_once(scn, schedule=(), policy="first", rng=None, crash=None, d1=True, ma
                     c = 0
                 elif policy == "last":
                     c = len(st) - 1
+                elif policy == "replyfirst":
+                    # replies overtake the engine's own events: the workers answer at once (their steps come first), then
+                    # the first enabled delivery from a reply queue, else the first step
+                    c = next((i for i, x in enumerate(st) if x[0] in ("wtake", "wreply")),
+                             next((i for i, x in enumerate(st) if x[0] == "dlv" and w.is_reply_queue(x[1])), 0))
                 else:
                     c = rng.randrange(len(st))
                 res.schedule.append(c)
